@@ -224,7 +224,11 @@ func GenWTemplate(r *rand.Rand, class string, idx int) WTemplate {
 		case "deferred":
 			g.feat("deferred_macro")
 			fmt.Fprintf(&b, "{%% macro D %%}%s1;%s2;{%% end %%}", DeferMark, DeferMark)
-			fmt.Fprintf(&b, "{%%%% defer D() %%%%}<p>body1;</p>%s<p>body2;</p>", g.htmlPiece())
+			if g.r.Intn(2) == 0 {
+				fmt.Fprintf(&b, "{%%%% defer D() %%%%}<p>body1;</p>%s<p>body2;</p>", g.htmlPiece())
+			} else {
+				fmt.Fprintf(&b, "{%% defer D() %%}<p>body1;</p>%s<p>body2;</p>", g.htmlPiece())
+			}
 		}
 	}
 	g.files[main] = b.String()
